@@ -12,6 +12,7 @@ structure TsigVars where
   timeSigned : Nat
   fudge : Nat
   error : Nat
+  otherLen : Nat         -- the OtherLen field as the record holds it (a record cut right behind it has no data)
   otherData : Bytes      -- decoded octets
 deriving Repr
 
@@ -28,7 +29,7 @@ def tsigVarPart (v : TsigVars) (timersOnly : Bool) : Bytes :=
   if timersOnly then beBytes 6 v.timeSigned ++ beBytes 2 v.fudge
   else outBytes (packName (canonicalName v.keyName)) ++ beBytes 2 255 ++ beBytes 4 v.ttl
     ++ outBytes (packName (canonicalName v.algorithm)) ++ beBytes 6 v.timeSigned ++ beBytes 2 v.fudge
-    ++ beBytes 2 v.error ++ beBytes 2 v.otherData.length ++ v.otherData
+    ++ beBytes 2 v.error ++ beBytes 2 v.otherLen ++ v.otherData
 
 /-- `tsigBuffer`: request MAC (length-prefixed) ‖ message with the ID replaced by the original ID ‖
     TSIG variables (RFC 8945 §4.3.3) or, for subsequent envelopes, the timers only (§5.3.1) -/
